@@ -14,7 +14,7 @@
 //     accounted PER CODE PATH (M22.inverse, M33.inverse:affine-arm / :cofactor-general-arm, M33.gjInverse,
 //     M44.inverse:nonaffine-arm / :cofactor-affine-arm, M44.gjInverse): graded condition numbers up to 1/eps with three
 //     singular-value profiles, both |det| branches, affine last column perturbed by one ulp (fast path vs general path must
-//     agree to 2c: `affine-jump:*`), finiteness of every result for cond < 1/eps^2, and on integer lattices every entry
+//     agree to 2c: `affine-jump:*`), finiteness of every result for cond < 1/eps^2 (entries within a dynamic range of 1/eps^2), and on integer lattices every entry
 //     produced by one division must be the correctly rounded adj/det.  The fixed witnesses come first (unseeded).
 //     Lines: `RESIDUE-FAIL <key> ...` (key = residue:accuracy:<path> | residue:affine-jump:<fn> | residue:nonfinite:<path> |
 //     residue:lattice:<path>; at most 4 per key and type), `RPATH <path> <ty> n= judged= worst= ...`, one `RESIDUE ...` summary.
@@ -239,7 +239,7 @@ template <int N> static Q normInf (const Q a[4][4])
 struct PathStat { long n = 0, judged = 0, fails = 0, nonfinite = 0, printed = 0; double worst = 0, worstCond = 0; };
 static std::map<std::string, PathStat> pstat;
 static std::map<std::string, long> classN;
-static long rEvals = 0, rFail = 0, detGe1 = 0, detLt1 = 0, guardIdentity = 0, finiteChecked = 0, latticeChecked = 0;
+static long rEvals = 0, rFail = 0, detGe1 = 0, detLt1 = 0, guardIdentity = 0, finiteChecked = 0, latticeChecked = 0, rangeExcluded = 0;
 static double CBOUND = 8;
 
 template <class T, int N> static std::string showM (const typename MatT<T, N>::type& m)
@@ -294,7 +294,13 @@ template <class T, int N> static void judge (const std::string& cls, const std::
     Q nx = normInf<N> (x), cond = normInf<N> (a) * nx;
     bool fin = finiteM<T, N> (got);
     char buf[400];
-    if (cond < 1 / (eps * eps))
+    // the finiteness claim is for entries "in a bounded dynamic range": a non-zero entry below eps^2 * max|entry| (e.g. a
+    // denormal next to O(1) entries) makes 1/pivot overflow once the matrix is numerically singular; such inputs are counted apart
+    Q amax = 0, amin = 0;
+    for (int i = 0; i < N; ++i) for (int j = 0; j < N; ++j) { Q v = qabs (a[i][j]); if (v > amax) amax = v; if (v != 0 && (amin == 0 || v < amin)) amin = v; }
+    bool bounded = amin == 0 || amin >= amax * eps * eps;
+    if (!bounded) ++rangeExcluded;
+    if (cond < 1 / (eps * eps) && bounded)
     {
         ++finiteChecked;
         if (!fin)
@@ -568,8 +574,8 @@ static int residueMain (unsigned long seed, long n)
     printf ("RCLASSES");
     for (auto& kv : classN) printf (" %s=%ld", kv.first.c_str (), kv.second);
     printf ("\n");
-    printf ("RESIDUE evals=%ld failures=%ld bound=%g det_ge1=%ld det_lt1=%ld guard_identity=%ld finite_checked=%ld lattice_checked=%ld\n", rEvals, rFail, CBOUND, detGe1, detLt1, guardIdentity,
-            finiteChecked, latticeChecked);
+    printf ("RESIDUE evals=%ld failures=%ld bound=%g det_ge1=%ld det_lt1=%ld guard_identity=%ld finite_checked=%ld lattice_checked=%ld dynamic_range_excluded_from_finiteness=%ld\n", rEvals, rFail, CBOUND, detGe1, detLt1, guardIdentity,
+            finiteChecked, latticeChecked, rangeExcluded);
     return rFail ? 1 : 0;
 }
 
